@@ -776,25 +776,113 @@ F_C14_final(cfg, last, outcome) ==
           ELSE Chk("C14.not-earlier-than-count", Counter(cfg, last) >= cfg.maxc))
 
 ----------------------------------------------------------------------------
+(* C17 state trackers equal the true configuration.  gb = current blockages <<from, id, to>> in *)
+(* the order they arose (maintained from the observed block / unblock micro-steps).             *)
+
+CountAt(S, n, Test(_)) == Cardinality({j \in DOMAIN S.cu : S.cu[j].loc = n /\ Test(S.cu[j])})
+
+F_C17_inv(cfg, S, gb) ==
+    LET t == cfg.tracker
+        N == NN(S)
+        tr == S.trk
+        allNonNeg == (\A a \in DOMAIN tr.a : tr.a[a] >= 0)
+                     /\ (\A a \in DOMAIN tr.b : \A b \in DOMAIN tr.b[a] : tr.b[a][b] >= 0)
+        cnt(n) == Len(Qs(S, n))
+    IN IF t = "none" THEN {}
+       ELSE Chk("C17.counts-non-negative", allNonNeg)
+       \cup Chk("C17.state-equals-configuration",
+             IF t = "system" THEN tr.a = <<SumSeq([n \in 1..N |-> cnt(n)])>>
+             ELSE IF t = "node" THEN tr.a = [n \in 1..N |-> cnt(n)]
+             ELSE IF t = "subset" THEN tr.a = [a \in DOMAIN cfg.observed |-> cnt(cfg.observed[a] + 1)]
+             ELSE IF t = "grouped" THEN
+                  tr.a = [g \in DOMAIN cfg.groups |-> SumSeq([a \in DOMAIN cfg.groups[g] |-> cnt(cfg.groups[g][a] + 1)])]
+             ELSE IF t = "nodeclass" THEN
+                  \* customers are counted under the class of their current visit; a customer that has finished
+                  \* service, changed class and is blocked may be shown under either class
+                  Len(tr.b) = N /\ \A n \in 1..N :
+                     SumSeq(tr.b[n]) = cnt(n) /\ \A k \in 1..cfg.K :
+                        LET sure == CountAt(S, n, LAMBDA c : c.cls = k /\ (~c.blk \/ c.pcls = k))
+                            maybe == CountAt(S, n, LAMBDA c : c.blk /\ c.pcls # c.cls /\ (c.cls = k \/ c.pcls = k))
+                        IN tr.b[n][k] >= sure /\ tr.b[n][k] <= sure + maybe
+             ELSE IF t = "naive" THEN
+                  tr.b = [n \in 1..N |-> <<CountAt(S, n, LAMBDA c : ~c.blk), CountAt(S, n, LAMBDA c : c.blk)>>]
+             ELSE \* matrix: order numbers of the current blockages, consecutive from 1 in blocking order
+                  tr.a = [n \in 1..N |-> cnt(n)]
+                  /\ tr.inc = Len(gb) + 1
+                  /\ tr.m = [a \in 1..N |-> [b \in 1..N |->
+                                LET pos == {j \in DOMAIN gb : gb[j][1] = a /\ gb[j][3] = b}
+                                    RECURSIVE Asc(_)
+                                    Asc(P) == IF P = {} THEN <<>> ELSE <<SetMin(P)>> \o Asc(P \ {SetMin(P)})
+                                IN Asc(pos)]])
+       \cup Chk("C17.blockage-order-matches-blocked-customers",
+             t = "matrix" => Len(gb) = Cardinality({j \in DOMAIN S.cu : S.cu[j].blk})
+                              /\ \A j \in DOMAIN gb : IsLive(S, gb[j][2]) /\ CuOf(S, gb[j][2]).blk
+                                                        /\ CuOf(S, gb[j][2]).loc = gb[j][1] /\ CuOf(S, gb[j][2]).dest = gb[j][3])
+
+F_C17_step(cfg, pre, post) ==
+    IF cfg.tracker = "none" \/ cfg.stop = "deadlock" THEN {}
+    ELSE LET changed == <<post.trk.a, post.trk.b, post.trk.m>> # <<pre.trk.a, pre.trk.b, pre.trk.m>>
+         IN Chk("C17.history-lists-each-change-once",
+                IF changed THEN post.trk.hl = pre.trk.hl + 1 /\ post.trk.ht = post.now
+                ELSE post.trk.hl = pre.trk.hl /\ post.trk.ht = pre.trk.ht)
+            \cup Chk("C17.history-timestamps-monotone", post.trk.ht >= pre.trk.ht)
+
+----------------------------------------------------------------------------
 (* Aggregation *)
 
-StepFails(cfg, pre, post, rt) ==
+StepFails(cfg, pre, post, ob) ==
     F_C01_step(cfg, pre, post) \cup F_C02_step(cfg, pre, post) \cup F_C03_step(cfg, pre, post)
     \cup F_C04_step(cfg, pre, post) \cup F_C12_step(cfg, pre, post)
     \cup F_C05_step(cfg, pre, post) \cup F_C06_step(cfg, pre, post) \cup F_C07_step(cfg, pre, post)
-    \cup F_C08_step(cfg, pre, post) \cup F_C09_step(cfg, pre, post, rt) \cup F_C10_step(cfg, pre, post)
+    \cup F_C08_step(cfg, pre, post) \cup F_C09_step(cfg, pre, post, ob.rt) \cup F_C10_step(cfg, pre, post)
     \cup F_C11_step(cfg, pre, post) \cup F_C13_step(cfg, pre, post) \cup F_C14_step(cfg, pre, post)
+    \cup F_C17_step(cfg, pre, post)
 
-InvFails(cfg, S) ==
+\* ob = observer state AFTER the event that produced S
+InvFails(cfg, S, ob) ==
+    F_C17_inv(cfg, S, ob.gb) \cup
     F_C01_inv(cfg, S) \cup F_C03_inv(cfg, S) \cup F_C04_inv(cfg, S) \cup F_C12_inv(cfg, S) \cup F_C05_inv(cfg, S) \cup F_C06_inv(cfg, S)
     \cup F_C07_inv(cfg, S) \cup F_C09_inv(cfg, S) \cup F_C10_inv(cfg, S) \cup F_C11_inv(cfg, S)
     \cup F_C13_inv(cfg, S)
+
+\* observer: blockage order after an event (block appends, an unblocking release removes its entry)
+RECURSIVE GbFold(_, _, _)
+GbFold(steps, a, gb) ==
+    IF a > Len(steps) THEN gb
+    ELSE LET s == steps[a]
+         IN IF s.k = "block" THEN GbFold(steps, a + 1, Append(gb, <<s.n, s.i, s.d>>))
+            ELSE IF s.k = "release" /\ s.f = 1 THEN
+                 LET hit == {j \in DOMAIN gb : gb[j][1] = s.n /\ gb[j][2] = s.i}
+                 IN GbFold(steps, a + 1, IF hit = {} THEN gb ELSE RemoveAt(gb, SetMin(hit)))
+            ELSE GbFold(steps, a + 1, gb)
 
 \* cycle-router decision counters after an event
 RtAfter(cfg, post, rt) ==
     [k \in 1..cfg.K |-> [n \in 1..cfg.N |->
         rt[k][n] + Cardinality({a \in IdxOf(post, "route") : post.steps[a].x = k /\ post.steps[a].n = n
                                                                /\ post.steps[a].f # 2})]]
+
+ObsAfter(cfg, post, ob) == [rt |-> RtAfter(cfg, post, ob.rt), gb |-> GbFold(post.steps, 1, ob.gb)]
+
+\* Known findings (DESIGN.md section 7): trigger predicates over one observed step.  A trace is tainted
+\* by finding F from the first step whose trigger holds; see known_findings.json for what each means.
+Triggers(cfg, pre, post) ==
+    (IF \E a \in IdxOf(post, "interrupt") : IsLive(pre, post.steps[a].i) /\ CuOf(pre, post.steps[a].i).blk
+     THEN {"F4"} ELSE {})
+    \cup (IF \E a \in IdxOf(post, "preempt") : IsLive(pre, post.steps[a].i)
+                 /\ CuOf(pre, post.steps[a].i).rdate # NONE /\ CuOf(pre, post.steps[a].i).rdate < INF
+          THEN {"F8"} ELSE {})
+    \cup (IF \E a \in IdxOf(post, "preempt") : \E b \in DOMAIN post.steps[a].wq :
+                 post.steps[a].wq[b][2] = post.steps[a].i /\ post.steps[a].wq[b][5] = 1
+          THEN {"F13"} ELSE {})
+    \cup (IF \E a \in IdxOf(post, "preempt") : post.steps[a].n \in DOMAIN cfg.nodes /\ cfg.nodes[post.steps[a].n].pp = 4
+          THEN {"F12"} ELSE {})
+    \cup (IF post.ev.kind = "arrival" /\ post.now = 0 /\ post.ev.node \in DOMAIN cfg.nodes
+              /\ cfg.nodes[post.ev.node].kind \in {"slot", "ps"}
+          THEN {"F14"} ELSE {})
+    \cup (IF post.ev.kind = "end_service" /\ post.ev.node \in DOMAIN cfg.nodes /\ cfg.nodes[post.ev.node].kind = "sched"
+              /\ pre.nodes[post.ev.node].c = 0
+          THEN {"F7"} ELSE {})
 
 \* non-vacuity witnesses of one event
 Witnesses(cfg, pre, post) ==
